@@ -56,6 +56,19 @@ def laws(draw, max_rows=12):
     return {'wav': wav, 'chi': chi}
 
 
+@st.composite
+def wide_laws(draw, max_rows=10):
+    """laws that cover 0.05..600 micron with opacities within 2 decades (pipeline checks: every filter gets a non-zero,
+    moderate extinction coefficient)"""
+    n = draw(st.integers(3, max_rows))
+    first = draw(logfloat(0.01, 0.05))
+    last = draw(logfloat(600., 1000.))
+    mid = draw(increasing(n - 2, 0.06, 550., 1.01))
+    wav = [first] + mid + [last]
+    chi = draw(st.lists(logfloat(0.1, 10.), min_size=len(wav), max_size=len(wav)))
+    return {'wav': wav, 'chi': chi}
+
+
 def law_object(law, wav_unit='um', chi_unit='cm2/g'):
     from astropy import units as u
     from sedfitter.extinction import Extinction
